@@ -28,6 +28,7 @@ from elementpath.datatypes import AnyAtomicType, AbstractDateTime, AnyURI, \
     Timezone, UntypedAtomic, AbstractQName, AbstractBinary
 from elementpath.tdop import Token, MultiLabel
 from elementpath.helpers import ordinal, get_double
+from elementpath.collations import CollationManager, UNICODE_CODEPOINT_COLLATION
 from elementpath.xpath_context import XPathContext, XPathSchemaContext, ABSENT_FOCUS
 from elementpath.xpath_nodes import XPathNode, NamespaceNode, DocumentNode, ElementNode
 from elementpath.sequences import xlist
@@ -640,6 +641,28 @@ class XPathToken(Token[ta.XPathTokenType]):
                         break
 
             yield self.implicit_timezone_operands(context, op1, op2)
+
+    def collation_operator(self, op: Callable[[Any, Any], bool]) -> Callable[[Any, Any], bool]:
+        """
+        The comparison operator *op* for a parser whose default collation is not the
+        Unicode codepoint collation: two string operands (xs:string, xs:anyURI and
+        xs:untypedAtomic compared as strings) are compared with the default collation,
+        as `fn:compare(op1, op2) op 0`; any other couple of operands is left to *op*.
+        """
+        if self.parser.default_collation == UNICODE_CODEPOINT_COLLATION:
+            return op
+        collation = self.parser.default_collation
+
+        def collation_op(op1: Any, op2: Any) -> bool:
+            if isinstance(op1, (str, AnyURI, UntypedAtomic)) and \
+                    isinstance(op2, (str, AnyURI, UntypedAtomic)):
+                if isinstance(op1, UntypedAtomic) and isinstance(op2, AnyURI):
+                    op1 = AnyURI(op1.value)  # the untyped operand is cast to xs:anyURI
+                with CollationManager(collation, self) as manager:
+                    return op(manager.strcoll(str(op1), str(op2)), 0)
+            return op(op1, op2)
+
+        return collation_op
 
     @staticmethod
     def implicit_timezone_operands(context: ta.ContextType, op1: Any, op2: Any) -> tuple[Any, Any]:
